@@ -15,6 +15,16 @@ fn needle() -> Vec<u8> {
     v
 }
 
+/// Where the file behind a file mapping lives: the work directory, or /dev/shm (POSIX shared memory objects are
+/// regular files of a tmpfs there) when the mapping says `"dir": "shm"`.
+fn victim_path(case: &Value, m: &Value, pid: u32, i: usize) -> String {
+    if m["dir"].as_str() == Some("shm") {
+        format!("/dev/shm/bvh_victim_{pid}_{i}.bin")
+    } else {
+        format!("{}/victim_{}_{}.bin", case["workdir"].as_str().unwrap(), pid, i)
+    }
+}
+
 fn victim() {
     let mut line = String::new();
     std::io::stdin().lock().read_line(&mut line).unwrap();
@@ -26,7 +36,15 @@ fn victim() {
     for (i, m) in case["mappings"].as_array().unwrap().iter().enumerate() {
         let len = m["pages"].as_u64().unwrap() as usize * page;
         let kind = m["kind"].as_str().unwrap();
-        let ptr = if kind == "anon" {
+        let ptr = if kind == "anon_shared" {
+            // A shared anonymous mapping (the kernel lists it as `/dev/zero (deleted)`): backed by its own shmem
+            // object, so never merged with a neighbour.
+            // Safety: plain anonymous shared mapping
+            unsafe {
+                libc::mmap(std::ptr::null_mut(), len, libc::PROT_READ | libc::PROT_WRITE,
+                           libc::MAP_SHARED | libc::MAP_ANONYMOUS, -1, 0)
+            }
+        } else if kind == "anon" {
             // An anonymous mapping between two inaccessible guard pages: the kernel merges adjacent anonymous
             // mappings of equal protection into one region, which would move chunk boundaries and fetch caps.
             // Safety: plain anonymous private mapping, then a protection change inside it
@@ -39,7 +57,7 @@ fn victim() {
                 inner
             }
         } else {
-            let path = format!("{}/victim_{}_{}.bin", case["workdir"].as_str().unwrap(), std::process::id(), i);
+            let path = victim_path(&case, m, std::process::id(), i);
             // the mapping starts `foff` bytes into the file (a multiple of the page size); offsets of the case
             // are relative to the mapping
             let foff = m["foff_pages"].as_u64().unwrap_or(0) as usize * page;
@@ -69,7 +87,7 @@ fn victim() {
         assert!(ptr != libc::MAP_FAILED);
         // Safety: the mapping is ours and `len` bytes long
         let mem = unsafe { std::slice::from_raw_parts_mut(ptr.cast::<u8>(), len) };
-        if kind == "anon" {
+        if kind == "anon" || kind == "anon_shared" {
             for (k, b) in mem.iter_mut().enumerate() {
                 *b = (k % 241) as u8 | 0x80;
             }
@@ -154,7 +172,7 @@ fn run(case: &Value) -> Value {
     drop(stdin);
     let _ = child.wait();
     for (i, _) in bases.iter().enumerate() {
-        let _ = std::fs::remove_file(format!("{}/victim_{}_{}.bin", case["workdir"].as_str().unwrap(), pid, i));
+        let _ = std::fs::remove_file(victim_path(case, &case["mappings"][i], pid, i));
     }
     json!({"results": results, "needle_len": nd.len()})
 }
